@@ -949,48 +949,54 @@ class MeshRegion:
         self.dphidy = self.hy * self.Btxy / (self.Bpxy * self.Rxy)
 
     def capBpYlowXpoint(self):
+        # Note: Bpxy carries the sign bpsign (it is negative everywhere when psi decreases
+        # away from the magnetic axis), so the cap acts on its magnitude
         if self.equilibriumRegion.xPointsAtStart[self.radialIndex] is not None:
             # Choose a minumum Bp as the average of the two values of Bpxy.centre
             # nearest to the X-point
             Bp_min = min(
-                self.Bpxy.centre[0, 0], self.getNeighbour("lower").Bpxy.centre[0, -1]
+                abs(self.Bpxy.centre[0, 0]),
+                abs(self.getNeighbour("lower").Bpxy.centre[0, -1]),
             )
             for i in range(self.nx):
-                if self.Bpxy.ylow[i, 0] < Bp_min:
-                    self.Bpxy.ylow[i, 0] = Bp_min
+                if abs(self.Bpxy.ylow[i, 0]) < Bp_min:
+                    self.Bpxy.ylow[i, 0] = self.bpsign * Bp_min
                 else:
                     break
         if self.equilibriumRegion.xPointsAtStart[self.radialIndex + 1] is not None:
             # Choose a minumum Bp as the average of the two values of Bpxy.centre
             # nearest to the X-point
             Bp_min = min(
-                self.Bpxy.centre[-1, 0], self.getNeighbour("lower").Bpxy.centre[-1, -1]
+                abs(self.Bpxy.centre[-1, 0]),
+                abs(self.getNeighbour("lower").Bpxy.centre[-1, -1]),
             )
             for i in range(self.nx):
-                if self.Bpxy.ylow[-i - 1, 0] < Bp_min:
-                    self.Bpxy.ylow[-i - 1, 0] = Bp_min
+                if abs(self.Bpxy.ylow[-i - 1, 0]) < Bp_min:
+                    self.Bpxy.ylow[-i - 1, 0] = self.bpsign * Bp_min
                 else:
                     break
         if self.equilibriumRegion.xPointsAtEnd[self.radialIndex] is not None:
             # Choose a minumum Bp as the average of the two values of Bpxy.centre
             # nearest to the X-point
             Bp_min = min(
-                self.Bpxy.centre[0, -1], self.getNeighbour("upper").Bpxy.centre[0, 0]
+                abs(self.Bpxy.centre[0, -1]),
+                abs(self.getNeighbour("upper").Bpxy.centre[0, 0]),
             )
             for i in range(self.nx):
-                if self.Bpxy.ylow[i, -1] < Bp_min:
-                    self.Bpxy.ylow[i, -1] = Bp_min
+                if abs(self.Bpxy.ylow[i, -1]) < Bp_min:
+                    self.Bpxy.ylow[i, -1] = self.bpsign * Bp_min
                 else:
                     break
         if self.equilibriumRegion.xPointsAtEnd[self.radialIndex + 1] is not None:
             # Choose a minumum Bp as the average of the two values of Bpxy.centre
             # nearest to the X-point
             Bp_min = min(
-                self.Bpxy.centre[-1, -1], self.getNeighbour("upper").Bpxy.centre[-1, 0]
+                abs(self.Bpxy.centre[-1, -1]),
+                abs(self.getNeighbour("upper").Bpxy.centre[-1, 0]),
             )
             for i in range(self.nx):
-                if self.Bpxy.ylow[-i - 1, -1] < Bp_min:
-                    self.Bpxy.ylow[-i - 1, -1] = Bp_min
+                if abs(self.Bpxy.ylow[-i - 1, -1]) < Bp_min:
+                    self.Bpxy.ylow[-i - 1, -1] = self.bpsign * Bp_min
                 else:
                     break
 
